@@ -134,6 +134,15 @@ def _upper(rep, mod, init, g, var, hi, extent, rule, text):
     if not d:
         rep.ob(rule, mod, g, text, True, engine='bounds')
         return
+    # lengths of lists the constructor builds over a range:  len(self.X)  with  self.X = [... for n in range(E)]  is E
+    for k in sorted(set(hi) | set(want)):
+        if k.startswith('len(self.') and k.endswith(')') and k.count('(') == 1:
+            defs = [n for n in walk_local(init) if isinstance(n, ast.Assign) and len(n.targets) == 1 and unparse(n.targets[0]) == k[4:-1]]
+            if len(defs) == 1 and isinstance(defs[0].value, ast.ListComp) and len(defs[0].value.generators) == 1 \
+                    and not defs[0].value.generators[0].ifs and isinstance(defs[0].value.generators[0].iter, ast.Call) \
+                    and unparse(defs[0].value.generators[0].iter.func) == 'range' and len(defs[0].value.generators[0].iter.args) == 1:
+                lf = linform(defs[0].value.generators[0].iter.args[0])
+                hi, want = bounds.substitute(hi, k, lf), bounds.substitute(want, k, lf)
     # unfold self.<attr> atoms through __init__ (each branch of a conditional expression separately)
     atoms = sorted(k for k in set(hi) | set(want) if k.startswith('self.') and k.count('.') == 1)
     branches = [('', hi, want)]
